@@ -758,8 +758,9 @@ def run(ctx, rep):
     w7(F, rep)
     w9(F, rep)
     w11(F, rep)
-    from .c03 import t11
+    from .c03 import t11, t13
     t11(F, rep)
+    t13(F, rep)
     # W8: what the parser captures as padding are exactly the bits left in the current byte, taken with the bit reader's own
     # read primitive (same rule as C03/T5 padding-count; a capture computed by hand from the reader's fields is not accepted)
     from . import c03
